@@ -57,7 +57,10 @@ def build(v):
                 return obj
             if hasattr(cls, "_fields"):
                 return cls(**fields)
-            obj = cls.__new__(cls)
+            try:
+                obj = cls()  # run the real constructor when it needs no arguments, so that every attribute it creates exists
+            except TypeError:
+                obj = cls.__new__(cls)
             for k, x in fields.items():
                 setattr(obj, k, x)
             return obj
